@@ -37,7 +37,20 @@ def prod_ob(tdir, path, nn, avx, rsz=1, asz=1, asl=None, nrows=1, ncols=1, tmpa=
     probe = [str(struct.unpack("<Q", struct.pack("<d", float(((7 * i + 3) % 23) - 11)))[0]) for i in range(na)] + \
             [str(struct.unpack("<Q", struct.pack("<d", float(((5 * i + 1) % 19) - 9)))[0]) for i in range(nb)]
     ob = _mk(name, path, nn, rsz, asz, nrows, ncols, d, tdir, avx, timeout)
-    ob.probe_inputs = probe
+    # structured probes: operands whose transform is exactly real, exactly imaginary or zero (monomials c*X^p at p = 0, 1, N/2, N-1 against a constant, and
+    # the reverse), the shapes on which a data-dependent shortcut in DFT space (comparisons of doubles are outside the real-domain reading) would act
+    def fb(x):
+        return str(struct.unpack("<Q", struct.pack("<d", float(x)))[0])
+    probes = [probe]
+    for pos in sorted(set((0, 1 % nn, nn // 2, nn - 1))):
+        va = [fb(3 + (i // nn)) if i % nn == pos else fb(0) for i in range(na)]
+        vb = [fb(5 + (i // nn)) if i % nn == 0 else fb(0) for i in range(nb)]
+        probes.append(va + vb)
+        va = [fb(3 + (i // nn)) if i % nn == 0 else fb(0) for i in range(na)]
+        vb = [fb(-7 - (i // nn)) if i % nn == pos else fb(0) for i in range(nb)]
+        probes.append(va + vb)
+    probes.append([fb(0)] * na + [fb(2)] * nb)
+    ob.probe_inputs = probes
     return ob
 
 
